@@ -49,6 +49,9 @@ func lateWrites(rec *Rec) {
 	for i, cp := range sink.copies {
 		sink.writes++
 		cp.Set(fmt.Sprintf("late-write-to-copy-%d", i), sink.writes)
+		// ... and it marks its copy as failed: a status and the abort flag of the COPY
+		cp.AbortWithStatus(599)
+		cp.AddError(errors.New("background job of an earlier request failed"))
 	}
 	for i, m := range sink.maps {
 		if m != nil {
